@@ -1,4 +1,5 @@
 import IofloModel.Lemmas.Lex
+import IofloModel.Lemmas.LexLoad
 /-!
 # C16 — script layout does not change what is built
 
@@ -177,5 +178,72 @@ example : String.ofList demo.render =
 example : demo.erase = [["put", "true", "into", "\"a b\"", "of", "x", "of", "framer"].map String.toList,
                         ["load", "x.flo"].map String.toList] := by decide
 example : commands demo.render = demo.erase := C16_layout demo (by decide)
+
+/-! ## `load`: programs split over files
+
+`Builder.build` follows `load <file>` commands (Model/LexLoad.lean: `treeLoop`, the read loop with its file stack
+written as recursion).  The statements below extend C16 to a tree of files: every file may be laid out
+independently — including what the last line of a loaded file is (a continuation line, a comment, a blank line, a
+line without newline) and where the `load` command stands in its parent. -/
+
+/-- **the reader over a file tree dispatches the `load`-expansion of the files' programs**: each file
+contributes exactly the commands it holds when read alone, spliced in after its `load` command; nothing of the
+reader's look-ahead state (`nextTokens`, a pending connective continuation) crosses a file boundary -/
+theorem C16_load_reads_programs (fix : Bool) (fs : Str → Option Str) (d : Nat) (text : Str) :
+    readTreeG fix fs d text = expand (fun n => (fs n).map (commandsG fix)) d (commandsG fix text) :=
+  treeLoop_eq_expand fix fs d [] (fileLines text)
+
+/-- the text of a laid-out file, with or without the newline at its very end -/
+def Layout.text (L : Layout) (eol : Bool) : Str := if eol then L.render else L.renderNoEol
+
+theorem commands_text (L : Layout) (h : L.ok = true) (eol : Bool) : commands (L.text eol) = L.erase := by
+  unfold Layout.text
+  cases eol
+  · exact C16_layout_noeol L h
+  · exact C16_layout L h
+
+/-- **C16 over a file tree**: whatever admissible layout every file of the tree has, with or without a final
+newline, `Builder.build` dispatches the `load`-expansion of the erased programs — the outcome (commands, and how
+reading ends) depends on the programs only -/
+theorem C16_load_layout (Ls : Str → Option Layout) (hok : ∀ n K, Ls n = some K → K.ok = true)
+    (eol : Str → Bool) (L : Layout) (hL : L.ok = true) (eolTop : Bool) (d : Nat) :
+    readTree (fun n => (Ls n).map (fun K => K.text (eol n))) d (L.text eolTop)
+      = expand (fun n => (Ls n).map Layout.erase) d L.erase := by
+  unfold readTree
+  rw [C16_load_reads_programs]
+  have e1 : commandsG true (L.text eolTop) = L.erase := commands_text L hL eolTop
+  have e2 : (fun n => ((Ls n).map (fun K => K.text (eol n))).map (commandsG true)) = (fun n => (Ls n).map Layout.erase) := by
+    funext n
+    cases h : Ls n with
+    | none => rfl
+    | some K => simp only [Option.map]; exact congrArg some (commands_text K (hok n K h) (eol n))
+  rw [e1, e2]
+
+/-- two layouts of the same tree of programs are read alike -/
+theorem C16_load_layouts_agree (Ls₁ Ls₂ : Str → Option Layout)
+    (h₁ : ∀ n K, Ls₁ n = some K → K.ok = true) (h₂ : ∀ n K, Ls₂ n = some K → K.ok = true)
+    (he : ∀ n, (Ls₁ n).map Layout.erase = (Ls₂ n).map Layout.erase)
+    (eol₁ eol₂ : Str → Bool) (L₁ L₂ : Layout) (hL₁ : L₁.ok = true) (hL₂ : L₂.ok = true) (heL : L₁.erase = L₂.erase)
+    (e₁ e₂ : Bool) (d : Nat) :
+    readTree (fun n => (Ls₁ n).map (fun K => K.text (eol₁ n))) d (L₁.text e₁)
+      = readTree (fun n => (Ls₂ n).map (fun K => K.text (eol₂ n))) d (L₂.text e₂) := by
+  rw [C16_load_layout Ls₁ h₁ eol₁ L₁ hL₁ e₁ d, C16_load_layout Ls₂ h₂ eol₂ L₂ hL₂ e₂ d, heL]
+  congr 1
+  funext n; exact he n
+
+/-- a loaded file whose last line is a connective continuation line without a newline, loaded from the middle of
+its parent; a nested load; a missing file -/
+example :
+    readTree (filesOf [("x.flo".toList, "do x\n  # why\n  via y".toList), ("y.flo".toList, "load x.flo\nframe b\n".toList)])
+      3 "house h\nload y.flo\n  \nput 1 into .a\n".toList
+    = ([["house", "h"], ["load", "y.flo"], ["load", "x.flo"], ["do", "x", "via", "y"], ["frame", "b"],
+        ["put", "1", "into", ".a"]].map (·.map String.toList), .done) ∧
+    readTree (filesOf []) 3 "house h\nload z.flo\nframe a\n".toList
+    = ([["house", "h"], ["load", "z.flo"]].map (·.map String.toList), .ioError) ∧
+    readTree (filesOf [("s.flo".toList, "load s.flo\n".toList)]) 2 "load s.flo\n".toList
+    = ([["load", "s.flo"], ["load", "s.flo"], ["load", "s.flo"]].map (·.map String.toList), .depth) := by
+  unfold readTree
+  simp only [C16_load_reads_programs]
+  decide +kernel
 
 end Ioflo.Lex
